@@ -389,6 +389,8 @@ def _encode_x(it, s, *a, **k):
     enc = (_codec_name(a, k, 0, "encoding", "utf-8") or "").lower()
     if enc in _ASCII_COMPAT and _b64_text_of(s.t) is not None:
         return SBytes(simp(s.t))
+    if enc in _ASCII_COMPAT and s.concrete() is None and not it.ex.feasible(z3.Not(z3.InRe(s.t, z3.Star(z3.Range(chr(0), chr(127)))))):
+        return SBytes(simp(s.t))  # provably pure ASCII (e.g. str(int)): every ASCII-compatible codec is the identity
     return _lib_encode(it, s, *a, **k)
 
 
@@ -406,3 +408,46 @@ def f_a2b_base64_x(it, data, **k):
         if x is not None:
             return SBytes(x)
     return _f_a2b_plain(it, data, **k)
+
+
+# ---------------------------------------------------------------------------------------------
+# re.search(pattern, text, flags) with a pattern *text* (user rules such as ignore_hosts/allow_hosts, possibly symbolic):
+# an uninterpreted predicate re_search3(pattern, flags, text); the match object is opaque (truthy).
+
+import re as _re
+
+
+def re_search3_t(pattern_t, flags: int, text_t):
+    return uf("re_search3", _S, _I, _S, _B)(pattern_t, z3.IntVal(int(flags)), text_t)
+
+
+@function(_re.search)
+def f_re_search(it, pattern, string, flags=None):
+    p = it.resolve(pattern)
+    s = it.resolve(string)
+    fl = 0 if flags is None else it.resolve(flags)
+    if not isinstance(fl, int):
+        flc = fl.concrete() if hasattr(fl, "concrete") else None
+        if flc is None:
+            raise Unsupported("re.search with symbolic flags")
+        fl = int(flc)
+    if isinstance(p, SConst) and isinstance(p.obj, _re.Pattern):
+        return it.call_value(SConst(p.obj.search), [s], {})
+    if not isinstance(p, (SStr, SBytes)) or not isinstance(s, (SStr, SBytes)):
+        raise Unsupported("re.search arguments")
+    if isinstance(p, SBytes) != isinstance(s, SBytes):
+        it.raise_(TypeError, "cannot use a string pattern on a bytes-like object")
+    it.ex.note("assumed", "re.search(pattern text, subject, flags) is an uninterpreted predicate re_search3(pattern, flags, subject)")
+    if it.branch(SBool(re_search3_t(p.t, fl, s.t))):
+        return SObj(_re.Match, {"string": s})
+    return NONE
+
+
+def _oracle_re_search3(p, fl, s):
+    try:
+        return _re.search(p, s, fl) is not None
+    except _re.error:
+        return False
+
+
+UF_ORACLES["re_search3"] = _oracle_re_search3
